@@ -819,6 +819,10 @@ def run(model: Model, rep, tier: str) -> None:
            lambda: _transform_values(model, rep),
            lambda: _mirrored(model, rep),
            lambda: _transformations(model, rep))
+    from ..dgspace import report as _dg_report
+    _dg_report(model, rep, "C18-R2", lambda n: n in ("to_meshtri",
+                                                     "to_meshtet"),
+               "the simplex mesh is built on garbage points", minimum=1)
     rep.require_min("C18-R1", 8)
     rep.require_min("C18-R2", 9)
     rep.require_min("C18-R3", 5)
@@ -828,6 +832,8 @@ def run(model: Model, rep, tier: str) -> None:
 _QU = "skfem/mesh/mesh_quad_1.py"
 _HE = "skfem/mesh/mesh_hex_1.py"
 MUTANTS = [
+    ("periodic quadrilateral meshes inherit the triangle split again",
+     ("skfem/mesh/mesh_dg.py", "    def to_meshtri(self, *args, **kwargs):\n        raise NotImplementedError\n\n", ""), "C18-R2"),
     ("extrusion walks the levels in stored order",
      ("skfem/mesh/mesh_tri_1.py",
       "            for i, p in enumerate(np.sort(other.p[0])):",
